@@ -198,12 +198,14 @@ package server
 
 // SetReplicationConfig with placement rules on (C18): the default rule mirrors the replication config. The update hands
 // SetRule a COPY of the served rule (the served object changes only if SetRule accepts it), and when persisting the
-// options fails the rule is rolled back to the old count AND the old location labels.
+// options fails the rule is rolled back to the old count AND the old location labels - again through a fresh copy: the
+// object handed to the first SetRule is the served rule by then, and an update that IS the served object is taken for
+// "no change" by the rule manager and never written to storage.
 //@ func (*Server).SetReplicationConfig
 //@   props C18
 //@   requires optsTyped(s.persistOptions) && s.storage != nil
 //@   requires [the-placement-rules-switch-is-not-flipped] cfg.EnablePlacementRules == asptr(s.persistOptions.replication.v, config.ReplicationConfig).EnablePlacementRules
 //@   at SetRule 1 assert [the-served-rule-is-not-edited-in-place] arg0 != nil && arg0 != callres("GetRule", 1)
-//@   at SetRule 2 assert [rollback-restores-count-and-labels] arg0 != nil && arg0 != callres("GetRule", 1) && (callres("GetReplicationConfig", 1).MaxReplicas < 9223372036854775808 ==> arg0.Count == callres("GetReplicationConfig", 1).MaxReplicas) && samearray(arg0.LocationLabels, callres("GetReplicationConfig", 1).LocationLabels) && len(arg0.LocationLabels) == len(callres("GetReplicationConfig", 1).LocationLabels)
+//@   at SetRule 2 assert [rollback-restores-count-and-labels] arg0 != nil && arg0 != callres("GetRule", 1) && arg0 != rule && (callres("GetReplicationConfig", 1).MaxReplicas < 9223372036854775808 ==> arg0.Count == callres("GetReplicationConfig", 1).MaxReplicas) && samearray(arg0.LocationLabels, callres("GetReplicationConfig", 1).LocationLabels) && len(arg0.LocationLabels) == len(callres("GetReplicationConfig", 1).LocationLabels)
 //@   option nosafety
 //@   modifies *
